@@ -76,6 +76,11 @@ func (store *Store) pathForKey(key string) string {
 	shards := make([]string, 1, 4) // future work: would be nice if we could reuse this rather than fresh allocating.
 	shards[0] = store.basepath     // not part of the path shard, but will be a param to Join, so, practical to put here.
 	//shards[1] = storageDir       // not part of the path shard, but will be a param to Join, so, practical to put here.
+	if store.escapingFunc != nil {
+		// The sharding function is applied to the escaped form (see the Store docs):
+		// without this, raw keys containing "/", ".." or NUL are interpreted as path syntax.
+		key = store.escapingFunc(key)
+	}
 	store.shardingFunc(key, &shards)
 	return filepath.Join(shards...)
 }
